@@ -68,19 +68,24 @@ def bodyS (m : Meth) (ss : SSt) (w : World) : SSt × Except Exc Val :=
     then (ss1, .error .zombieProcess) else (ss1, .ok cs)
   | (ss1, .error e) => (ss1, .error e)
 
+/-- a method that re-validates the process before anything else reports a process that is gone
+    NOW (a fresh, truthful NoSuchProcess), otherwise computes -/
+def bodyG (m : Meth) (ss : SSt) (w : World) : SSt × Except Exc Val :=
+  if m.goneCheck && w.st == PState.gone then (ss, .error .noSuchProcess) else bodyS m ss w
+
 def callS (m : Meth) (ss : SSt) (w : World) : SSt × Except Exc Val :=
   match m.front with
-  | none => bodyS m ss w
+  | none => bodyG m ss w
   | some f =>
     if inBlock ss then
       match ss.frozenFun f with
       | some v => (ss, .ok v)
       | none =>
-        match bodyS m ss w with
+        match bodyG m ss w with
         | (ss', .ok v) =>
           ({ ss' with frozenFun := fun x => if x = f then some v else ss'.frozenFun x }, .ok v)
         | (ss', .error e) => (ss', .error e)
-    else bodyS m ss w
+    else bodyG m ss w
 
 def enterS (ss : SSt) : SSt := { ss with depth := ss.depth + 1 }
 
